@@ -202,6 +202,7 @@ class Inliner:
         self._mod_partials = {}
         # helper table: name -> [(mod, qual, fn)] for functions not in the inventory
         self.helpers = {}
+        self.cm_helpers = {}
         for mn, m in prog.modules.items():
             for q, lst in m.all_functions.items():
                 # a decorator changes what a call does (lru_cache, contextmanager, ...): decorated helpers are never transparent
@@ -210,6 +211,9 @@ class Inliner:
                 dunder = short.startswith("__") and short.endswith("__")   # special methods are called implicitly: never transparent
                 if (mn, q) not in self.inv and len(lst) == 1 and "<locals>" not in q and plain and not dunder:
                     self.helpers.setdefault(q.split(".")[-1], []).append((mn, q, lst[0]))
+                cm = len(lst) == 1 and len(lst[0].decorator_list) == 1 and (dotted(lst[0].decorator_list[0]) or "") in ("contextmanager", "contextlib.contextmanager")
+                if cm and (mn, q) not in self.inv and "." not in q:
+                    self.cm_helpers[q] = (mn, q, lst[0])
 
     def module_partials(self, mn):
         if mn not in self._mod_partials:
@@ -267,7 +271,7 @@ class Inliner:
                 continue
             bad = False
             for x in ast.walk(f):
-                if isinstance(x, (ast.Yield, ast.YieldFrom, ast.Nonlocal, ast.Global, ast.Await)):
+                if isinstance(x, (ast.Nonlocal, ast.Global, ast.Await)):
                     bad = True
                 if isinstance(x, ast.Name) and x.id == name and x is not f:
                     bad = True   # recursive
@@ -390,7 +394,12 @@ class Inliner:
         for p in params + [x.arg for x in a.kwonlyargs]:
             if p not in env:
                 if p in defaults:
-                    env[p] = defaults[p]
+                    d = defaults[p]
+                    if isinstance(d, (ast.Dict, ast.List, ast.Set, ast.ListComp, ast.DictComp, ast.SetComp)) or (isinstance(d, ast.Call)):
+                        # a default is evaluated ONCE, when the function is defined: a mutable default object is shared by all calls, which inlining
+                        # (a fresh object per call site) would hide - such a callee is not transparent
+                        return None
+                    env[p] = d
                 else:
                     return None
         return env
@@ -513,6 +522,13 @@ class Inliner:
         def do_block(stmts):
             out = []
             for s in stmts:
+                rep = gen_hoist(s)
+                if rep is None:
+                    rep = cm_splice(s)
+                if rep is not None:
+                    out.extend(do_block(rep))
+                    changed[0] = True
+                    continue
                 rep = try_stmt(s)
                 if rep is not None:
                     out.extend(rep)
@@ -528,6 +544,156 @@ class Inliner:
                 expr_inline(s)
                 out.append(s)
             return out
+
+        def gen_hoist(s):
+            """`list(g(a))`, `for T in g(a)`, `x.extend(g(a))` with g a transparent generator function (no `return`): the items are collected first
+            (`__gN = []`, the generator's body with `yield E` -> `__gN.append(E)`), the call is replaced by `__gN`.  (Laziness is lost, the sequence of items is not.)"""
+            if isinstance(s, ast.For):
+                holders = [("iter", s)]
+            elif isinstance(s, (ast.Assign, ast.Return, ast.Expr, ast.AugAssign)) and getattr(s, "value", None) is not None:
+                holders = [("value", s)]
+            else:
+                return None
+            root = getattr(s, holders[0][0])
+            cands = []
+            if isinstance(s, ast.For) and isinstance(root, ast.Call):
+                cands.append(root)
+            wrapper_of = {}
+            for n in ast.walk(root):
+                if isinstance(n, ast.Call) and ((isinstance(n.func, ast.Name) and n.func.id in ("list", "tuple", "sorted", "enumerate", "zip", "dict", "set", "frozenset", "sum", "any", "all", "max", "min")) or (isinstance(n.func, ast.Attribute) and n.func.attr == "extend")):
+                    cands += [a for a in n.args if isinstance(a, ast.Call)]
+                    if isinstance(n.func, ast.Name) and n.func.id == "list" and len(n.args) == 1 and not n.keywords and isinstance(n.args[0], ast.Call):
+                        wrapper_of[id(n.args[0])] = n   # list(g(..)): the collected list itself
+            for call in cands:
+                r = me._callee(call, mn, cls)
+                if r is None:
+                    continue
+                (cm_, cq, cfn), recv = r
+                if A.qualname(cfn) == A.qualname(fn):
+                    continue
+                ys = [n for n in ast.walk(cfn) if isinstance(n, (ast.Yield, ast.YieldFrom))]
+                if not ys or any(isinstance(n, ast.Return) for n in ast.walk(cfn)):
+                    continue
+                # `for T in g(...): BODY` with a single `yield E`: the generator's body with the yield replaced by `T = E; BODY` (exact, as long as BODY
+                # neither leaves nor restarts the loop by itself)
+                if isinstance(s, ast.For) and call is s.iter and len(ys) == 1 and isinstance(ys[0], ast.Yield) and not s.orelse \
+                        and not any(isinstance(n, (ast.Break, ast.Continue, ast.Return)) for b in s.body for n in ast.walk(b)):
+                    env = me._bind(call, cfn, recv)
+                    if env is not None:
+                        body = me._instantiate(cfn, env, dead_after=())
+                        done = [False]
+
+                        def splice(stmts):
+                            out_ = []
+                            for b in stmts:
+                                if isinstance(b, ast.Expr) and isinstance(b.value, ast.Yield):
+                                    out_.append(ast.copy_location(ast.Assign(targets=[s.target], value=b.value.value if b.value.value is not None else ast.Constant(value=None)), s))
+                                    out_.extend(s.body)
+                                    done[0] = True
+                                    continue
+                                for f_ in A.BLOCK_FIELDS:
+                                    sub = getattr(b, f_, None)
+                                    if isinstance(sub, list) and sub and isinstance(sub[0], ast.stmt):
+                                        setattr(b, f_, splice(sub))
+                                if isinstance(b, ast.Try):
+                                    for h in b.handlers:
+                                        h.body = splice(h.body)
+                                out_.append(b)
+                            return out_
+                        res = splice(body)
+                        if done[0]:
+                            me.used[(cm_, cq)] = me.used.get((cm_, cq), 0) + 1
+                            for x in res:
+                                ast.fix_missing_locations(x)
+                            return res
+                if any(not isinstance(getattr(y, "_parent", None), ast.Expr) for y in ys if hasattr(y, "_parent")):
+                    pass
+                env = me._bind(call, cfn, recv)
+                if env is None:
+                    continue
+                body = me._instantiate(cfn, env, dead_after=())
+                acc = "__g%d" % me.counter
+
+                class Y(ast.NodeTransformer):
+                    ok = True
+
+                    def visit_Expr(self, n):
+                        v = n.value
+                        if isinstance(v, ast.Yield):
+                            return ast.copy_location(ast.Expr(value=ast.Call(func=ast.Attribute(value=ast.Name(id=acc, ctx=ast.Load()), attr="append", ctx=ast.Load()),
+                                                                             args=[v.value if v.value is not None else ast.Constant(value=None)], keywords=[])), n)
+                        if isinstance(v, ast.YieldFrom):
+                            return ast.copy_location(ast.Expr(value=ast.Call(func=ast.Attribute(value=ast.Name(id=acc, ctx=ast.Load()), attr="extend", ctx=ast.Load()), args=[v.value], keywords=[])), n)
+                        return n
+
+                    def visit_Yield(self, n):
+                        Y.ok = False   # a yield used as an expression (send protocol): not a plain producer
+                        return n
+
+                    def visit_FunctionDef(self, n):
+                        return n
+                body = [Y().visit(b) for b in body]
+                if not Y.ok:
+                    continue
+                me.used[(cm_, cq)] = me.used.get((cm_, cq), 0) + 1
+                init = ast.copy_location(ast.Assign(targets=[ast.Name(id=acc, ctx=ast.Store())], value=ast.List(elts=[], ctx=ast.Load())), s)
+                call = wrapper_of.get(id(call), call)
+                for k_ in ("func", "args", "keywords"):
+                    delattr(call, k_)
+                call.__class__ = ast.Name
+                call.id, call.ctx = acc, ast.Load()
+                pre = [init] + body
+                for x in pre:
+                    ast.fix_missing_locations(x)
+                return pre + [s]
+            return None
+
+        def cm_splice(s):
+            """`with cm(args) as v: BODY` with cm a transparent @contextmanager function that yields once: the function's body with `yield V` replaced by
+            `v = V; BODY` (exactly what the context-manager protocol executes, including what its try/finally/except see)"""
+            if not (isinstance(s, ast.With) and len(s.items) == 1 and isinstance(s.items[0].context_expr, ast.Call)):
+                return None
+            call = s.items[0].context_expr
+            if not (isinstance(call.func, ast.Name) and call.func.id in me.cm_helpers):
+                return None
+            cm_, cq, cfn = me.cm_helpers[call.func.id]
+            ys = [n for n in ast.walk(cfn) if isinstance(n, (ast.Yield, ast.YieldFrom))]
+            if len(ys) != 1 or not isinstance(ys[0], ast.Yield) or any(isinstance(n, ast.Return) for n in ast.walk(cfn)):
+                return None
+            env = me._bind(call, cfn, None)
+            if env is None:
+                return None
+            body = me._instantiate(cfn, env, dead_after=())
+            var = s.items[0].optional_vars
+            done = [False]
+
+            def splice(stmts):
+                out_ = []
+                for b in stmts:
+                    if isinstance(b, ast.Expr) and isinstance(b.value, ast.Yield):
+                        if var is not None:
+                            out_.append(ast.copy_location(ast.Assign(targets=[var], value=b.value.value if b.value.value is not None else ast.Constant(value=None)), s))
+                        elif b.value.value is not None:
+                            out_.append(ast.copy_location(ast.Expr(value=b.value.value), s))
+                        out_.extend(s.body)
+                        done[0] = True
+                        continue
+                    for f_ in A.BLOCK_FIELDS:
+                        sub = getattr(b, f_, None)
+                        if isinstance(sub, list) and sub and isinstance(sub[0], ast.stmt):
+                            setattr(b, f_, splice(sub))
+                    if isinstance(b, ast.Try):
+                        for h in b.handlers:
+                            h.body = splice(h.body)
+                    out_.append(b)
+                return out_
+            res = splice(body)
+            if not done[0]:
+                return None
+            me.used[(cm_, cq)] = me.used.get((cm_, cq), 0) + 1
+            for x in res:
+                ast.fix_missing_locations(x)
+            return res
 
         def hoist(s):
             """a simple statement that calls a transparent helper / local callable inside a larger expression, where the callee is not a single
